@@ -595,7 +595,30 @@ def r41(ctx: Ctx) -> RuleReport:
     from ..resolve import local_callees, facts_ex
     strip = [n for f in local_callees(ctx, ft, depth=1) for n in walk_local(f.node) if isinstance(n, ast.Call) and isinstance(n.func, ast.Attribute)
              and n.func.attr in ('lstrip', 'removeprefix') and n.args and try_fold(n.args[0]) == (True, ':')]
-    rep.oblige('format_triples strips the leading colon of the role', bool(strip), '', ft.loc(), key='format_triples strips colon')
+    raw_role = None
+    if not strip:
+        # positive evidence: the role of the unpacked triple is written into the text as it is
+        for f in local_callees(ctx, ft, depth=1):
+            for n in walk_local(f.node):
+                tgt = n.target if isinstance(n, (ast.For, ast.comprehension)) else (n.targets[0] if isinstance(n, ast.Assign) else None)
+                if isinstance(tgt, ast.Tuple) and len(tgt.elts) == 3 and isinstance(tgt.elts[1], ast.Name):
+                    r = tgt.elts[1].id
+                    for x in walk_local(f.node):
+                        written = []
+                        if isinstance(x, ast.JoinedStr):
+                            written = [v.value for v in x.values if isinstance(v, ast.FormattedValue)]
+                        elif isinstance(x, ast.Call) and isinstance(x.func, ast.Attribute) and x.func.attr == 'format':
+                            written = list(x.args) + [k.value for k in x.keywords]
+                        elif isinstance(x, ast.BinOp) and isinstance(x.op, (ast.Add, ast.Mod)):
+                            written = [x.left, x.right] + (list(x.right.elts) if isinstance(x.right, ast.Tuple) else [])
+                        if any(isinstance(w, ast.Name) and w.id == r for w in written):
+                            raw_role = (f, x, r)
+    if raw_role:
+        rep.violation('format_triples strips colon', raw_role[0].loc(raw_role[1]),
+                      f'the role `{raw_role[2]}` is written as stored (with its leading colon): `{norm(raw_role[1])[:60]}`; the triple reader then '
+                      f'reads a role with two colons, or a different role')
+    else:
+        rep.oblige('format_triples strips the leading colon of the role', bool(strip), '', ft.loc(), key='format_triples strips colon')
     pt = ctx.repo.func('penman._parse', '_parse_triples')
     from ..cfg import cond_facts, facts_at
     cfg = CFG(pt.node)
